@@ -58,6 +58,8 @@ func vDeadlocked() bool                  { return false }
 func vNondetErr(name string) error       { return nil }
 func vHavocBytes(b []byte, name string)  {}
 func vBencode(v interface{}) []byte      { return nil }
+func vUnsafeClass(k int)                 {}
+func vOutUnsafe() bool                   { return false }
 func vLastEncoded() interface{}          { return nil }
 func vAnd(a, b bool) bool                { return a && b }
 func vOr(a, b bool) bool                 { return a || b }
